@@ -173,6 +173,7 @@ PROPS = {
     "C10": {
         "level": "other",
         "rules": [T.ref_protocol, T.state_tables, S.constructors_and_writers, E.error_sites, D.validate],
+        "thorough": [TH.generated_corpus, TH.feature_matrix(T.ref_protocol, T.state_tables, S.constructors_and_writers, name="feature_matrix_refs")],
         "explanation": "The library's obligations towards a user codec are the protocol clauses: first offer writes VarU32(0) and "
                        "returns true, later offers write the 1-based first-offer id through the context (so chunk buffering "
                        "applies) and return false; the reader maps 0 to `new object` and any other id through a checked lookup "
@@ -185,6 +186,7 @@ PROPS = {
     "C11": {
         "level": "proof",
         "rules": [B.varints, P.output_methods, P.input_methods, P.sources_agree],
+        "thorough": [TH.feature_matrix(B.varints, P.output_methods, P.input_methods, P.sources_agree, name="feature_matrix_varints")],
         "explanation": "Exact bit-level abstract interpretation (GF(2)-affine bit vectors over the MIR of the four varint "
                        "routines) for all 2^32 inputs at once: byte layout, minimal length, continuation bits (B1), zig-zag "
                        "(B2, B4), reader (B3), read . write = id for both signednesses (B5); the routines are provided trait "
@@ -229,6 +231,7 @@ PROPS = {
     "C15": {
         "level": "other",
         "rules": [P.output_methods, P.sink_bodies, P.input_methods, P.sources_agree, P.parametricity, S.fresh_context],
+        "thorough": [TH.feature_matrix(P.output_methods, P.sink_bodies, P.input_methods, P.sources_agree, P.parametricity, name="feature_matrix_sinks")],
         "explanation": "Parametricity argument: generic codec code reaches a sink only through write_u8/write_bytes (P1), the "
                        "sinks implement exactly these two with the obvious bodies and SizeCalculator counts exactly (P2), no "
                        "code branches on the sink type (P5), the convenience entry points funnel into serialize (S5); the "
